@@ -7,11 +7,14 @@ the subject."""
 from lbry.wallet.util import ArithUint256
 from lbry.wallet.header import Headers, InvalidHeader
 
-LEVEL_TEXT = ('Bounded model checking of the real header code, parts (i), (ii) and (v) of five planned (batch validation/connect and checkpointed chunks are not built yet): (i) compact target encoding against Bitcoin\'s '
+LEVEL_TEXT = ('Bounded model checking of the real header code in five parts: (i) compact target encoding against Bitcoin\'s '
               'arith_uint256 for every value below 2^256 (one symbolic value per bit length) and every 32-bit compact; '
               '(ii) the retarget rule, with the float division modelled exactly, against lbrycrd\'s integer rule for every '
-              'valid compact target of the size bytes in range and every pair of 32-bit timestamps; (iii) header and batch '
-              'validation/connect with symbolic link / bits / proof-of-work outcomes; (iv) checkpointed chunk acceptance; '
+              'valid compact target of the size bytes in range and every pair of 32-bit timestamps; (iii) connect / validate_chunk / '
+              'validate_header on a batch whose first invalid header and the reason (link, bits, proof of work) are chosen by the '
+              'solver, for several stored-chain lengths, connection points (extension and forks), chunk sizes and splits into calls: '
+              'nothing at or beyond the first invalid header is stored, a valid batch is stored whole; (iv) a downloaded checkpoint '
+              'chunk is stored iff it hashes to the built-in checkpoint; '
               '(v) open()/repair() on a stored file with symbolic link damage and an arbitrary cut.')
 LEVEL_NOTE = ('Trusted: z3, the interpreter and its exact float model (every path replayed natively with real floats and real '
               'hashes), the reference rules written in the harness.  Hashes (double SHA-256, the PoW hash chain) are ideal '
@@ -21,6 +24,9 @@ ASSUMPTIONS = [
     'double_sha256 / sha512 / ripemd160 = ideal functions; in parts (iii) and (v) hash_header, header_hash_to_pow_hash and the '
     'decoded fields of opaque headers are symbolic tokens whose equalities are free booleans (link_i, ...)',
     'part (ii): bits is the compact form of a target in (0, max_target] (the only bits a validated predecessor can carry)',
+    'part (iii): the retarget rule is replaced by a constant target (it is part ii) and the PoW value of batch header j is below the '
+    'target iff pow_ok_j; the stored chain is valid; a client stops submitting after a batch that was not fully accepted',
+    'part (iv): base64/zlib decoding is the identity on an opaque chunk',
     'part (v): header file without zero-filled checkpoint placeholders; the subclass used has no built-in checkpoints',
 ]
 OUTSIDE = ['SHA-512/RIPEMD/SHA-256 values', 'zlib/base64 decoding of downloaded chunks', 'real file I/O errors',
@@ -300,10 +306,288 @@ class NativeEnv:
         shutil.rmtree(getattr(self, 'dir', '/nonexistent'), ignore_errors=True)
 
 
+# ------------------------------------------------------------------------------------------------ (iii) connect
+GOOD_BITS = 0x1f00ffff          # compact form of Headers.max_target
+
+
+class HTok:
+    """hash_header of an opaque header (space 'old' = stored chain, 'new' = the batch); only equalities matter."""
+
+    def __init__(self, space, i):
+        self.space, self.i = space, i
+
+    def decode(self):
+        return 'hash(%s %d)' % (self.space, self.i)
+
+    def __symeq__(self, other, vm):
+        if isinstance(other, HTok):
+            return self.space == other.space and self.i == other.i
+        if isinstance(other, PTok):
+            return other.__symeq__(self, vm)
+        return False
+
+
+class PTok:
+    """prev_block_hash field of an opaque header."""
+
+    def __init__(self, space, i, start):
+        self.space, self.i, self.start = space, i, start
+
+    def decode(self):
+        return 'prev(%s %d)' % (self.space, self.i)
+
+    def __symeq__(self, other, vm):
+        if isinstance(other, HTok):
+            if self.space == 'old':
+                return other.space == 'old' and other.i == self.i - 1          # the stored chain links
+            pred = ('new', self.i - 1) if self.i > 0 else ('old', self.start - 1)
+            if (other.space, other.i) == pred:
+                return vm.named_bool('link%d' % self.i)
+            return False                                                         # ideal hash: no accidental links
+        return isinstance(other, PTok) and (other.space, other.i) == (self.space, self.i)
+
+
+class ConnectHeaders(Headers):
+    """Real Headers; the retarget rule (part ii) and the PoW hash are replaced: every header must carry GOOD_BITS and the
+    proof of work of batch header j is below the target iff pow_ok_j."""
+    checkpoints = {}
+    validate_difficulty = True
+
+    def get_next_block_target(self, max_target, previous, current):
+        return ArithUint256(self.max_target)
+
+    @classmethod
+    def get_proof_of_work(cls, header_hash):
+        return ENV[0].proof_of_work(header_hash)
+
+
+def connect_batch(vm, s, d, m, chunk_size, split):
+    """A stored chain of s valid headers; a batch of m headers that connects at height s-d, cut into chunks of chunk_size
+    by the code and delivered in one call or two; the first invalid header (and why) is the solver's choice."""
+    env = ENV[0]
+    start = s - d
+    first_bad = vm.pick('first_invalid', m + 1)                  # m: the whole batch is valid
+    reason = vm.pick('reason', 3) if first_bad < m else 0
+    for j in range(m):
+        for r, name in enumerate(('link', 'bits_ok', 'pow_ok')):
+            flag = vm.named_bool('%s%d' % (name, j))
+            if j < first_bad:
+                vm.assume(flag)
+            elif j == first_bad and r == reason:
+                vm.assume(not flag)
+    h, batch = env.make_connect(vm, s, start, m, chunk_size)
+    olds = [h._read(i) for i in range(s)]
+    calls = [(start, 0, m)] if split is None else [(start, 0, split), (start + split, split, m)]
+    added = 0
+    for at, a, b in calls:
+        data = b''
+        for j in range(a, b):
+            data = data + batch[j]
+        try:
+            got = vm.await_(h.connect(at, data))
+        except Exception as e:
+            return 'VIOLATION: connect raised %s' % type(e).__name__
+        added = added + got
+        if got != b - a:
+            break                                                # a client stops after a batch that was not fully accepted
+    for j in range(m):
+        stored = start + j < len(h) and h._read(start + j) == batch[j]
+        if first_bad < m and j >= first_bad and stored:
+            return 'VIOLATION: batch header %d is stored although header %d of the batch is invalid' % (j, first_bad)
+        if first_bad == m and not stored:
+            return 'VIOLATION: a fully valid batch that extends the chain is not stored whole'
+    if first_bad == m and added != m:
+        return 'VIOLATION: connect reports %d added headers for a valid batch of %d' % (added, m)
+    for i in range(start):
+        if h._read(i) != olds[i]:
+            return 'VIOLATION: a stored header below the connection point changed'
+    if len(h) < s:
+        return 'VIOLATION: the chain became shorter'
+    return 'ok-stored' if first_bad == m else 'ok-refused'
+
+
+def checkpoint_chunk(vm):
+    """fetch_chunk: a downloaded 1000-header chunk is written iff its hash is the built-in checkpoint for that height."""
+    env = ENV[0]
+    checkpointed = vm.new_bool('height_has_checkpoint')
+    h, chunk = env.make_checkpoint(vm, checkpointed)
+    height = 1000 + vm.new_int('offset', 0, 999)
+    before = h._read(1000, 1000)
+    try:
+        vm.await_(h.fetch_chunk(height))
+        raised = False
+    except Exception:
+        raised = True
+    written = h._read(1000, 1000) == chunk
+    matches = vm.named_bool('chunk_matches_checkpoint')
+    if written and not (checkpointed and matches):
+        return 'VIOLATION: a chunk that does not hash to the built-in checkpoint was stored'
+    if checkpointed and matches and (raised or not written):
+        return 'VIOLATION: the chunk matching the checkpoint was not stored'
+    if checkpointed and not matches and not raised:
+        return 'VIOLATION: a checkpoint mismatch was not reported'
+    if not written and h._read(1000, 1000) != before:
+        return 'VIOLATION: a refused chunk changed the stored headers'
+    return 'ok-stored' if written else 'ok-refused'
+
+
+class ChunkHashTok:
+    def decode(self):
+        return self
+
+    def __symeq__(self, other, vm):
+        if isinstance(other, str):
+            return vm.named_bool('chunk_matches_checkpoint')
+        return other is self
+
+
+class SymConnectEnv:
+    def make_connect(self, vm, s, start, m, chunk_size):
+        from io import BytesIO
+        from symvm.sv import SBytes, Run
+        self.start = start
+        ConnectHeaders.chunk_size = chunk_size
+        h = ConnectHeaders(':memory:')
+        h.io = BytesIO(SBytes([Run('old', 0, 112 * s)]))
+        h._size = s
+        return h, [SBytes([Run('new%d' % j, 0, 112)]) for j in range(m)]
+
+    def proof_of_work(self, tok):
+        vm = VMREF[0]
+        if tok.space == 'old':
+            return ArithUint256(0)
+        return ArithUint256(vm.ite(vm.named_bool('pow_ok%d' % tok.i), 0, 2 ** 255))
+
+    def make_checkpoint(self, vm, checkpointed):
+        from io import BytesIO
+        from symvm.sv import SBytes, Run
+        h = ConnectHeaders(':memory:')
+        h.io = BytesIO(SBytes([Run('old', 0, 112 * 2000)]))
+        h._size = 2000
+        h.checkpoints = {1000: 'the-built-in-checkpoint'} if checkpointed else {0: 'another-height'}
+        chunk = SBytes([Run('chunk', 0, 112 * 1000)])
+        h.chunk_getter = ChunkGetter({'base64': chunk})
+        return h, chunk
+
+
+class ChunkGetter:
+    def __init__(self, reply):
+        self.reply = reply
+
+    async def __call__(self, start):
+        return self.reply
+
+
+class NativeConnectEnv:
+    """Real bytes: header j links / carries GOOD_BITS / has enough work exactly when the model's booleans say so."""
+
+    def raw(self, prev, bits, salt):
+        return (1).to_bytes(4, 'little') + prev + bytes([salt % 251 + 1]) * 32 + bytes([9]) * 32 + \
+            (1500000000 + salt).to_bytes(4, 'little') + bits.to_bytes(4, 'little') + salt.to_bytes(4, 'little')
+
+    def make_connect(self, vm, s, start, m, chunk_size):
+        from io import BytesIO
+        from lbry.crypto.hash import double_sha256
+        ConnectHeaders.chunk_size = chunk_size
+        self.pow = {}
+        prev = b'\x00' * 32
+        blob = b''
+        hashes = []
+        for i in range(s):
+            hdr = self.raw(prev, GOOD_BITS, i)
+            blob += hdr
+            prev = double_sha256(hdr)
+            hashes.append(prev)
+            self.pow[Headers.hash_header(hdr)] = True
+        batch = []
+        prev = hashes[start - 1] if start > 0 else b'\x00' * 32
+        for j in range(m):
+            field = prev if vm.named_bool('link%d' % j) else bytes([0xEE]) * 32
+            hdr = self.raw(field, GOOD_BITS if vm.named_bool('bits_ok%d' % j) else GOOD_BITS - 1, 5000 + j)
+            batch.append(hdr)
+            prev = double_sha256(hdr)
+            self.pow[Headers.hash_header(hdr)] = bool(vm.named_bool('pow_ok%d' % j))
+        h = ConnectHeaders(':memory:')
+        h.io = BytesIO(blob)
+        h._size = s
+        return h, batch
+
+    def proof_of_work(self, header_hash):
+        return ArithUint256(0 if self.pow.get(header_hash, True) else 2 ** 255)
+
+    def make_checkpoint(self, vm, checkpointed):
+        import base64
+        import zlib
+        from io import BytesIO
+        prev = b'\x00' * 32
+        old = b''.join(self.raw(prev, GOOD_BITS, i) for i in range(2000))
+        chunk = b''.join(self.raw(prev, GOOD_BITS, 7000 + i) for i in range(1000))
+        h = ConnectHeaders(':memory:')
+        h.io = BytesIO(old)
+        h._size = 2000
+        good = Headers.hash_header(chunk).decode()
+        h.checkpoints = {1000: good if vm.named_bool('chunk_matches_checkpoint') else 'ff' * 32} if checkpointed else {0: 'ab' * 32}
+        co = zlib.compressobj(wbits=-15)
+        h.chunk_getter = ChunkGetter({'base64': base64.b64encode(co.compress(chunk) + co.flush()).decode()})
+        return h, chunk
+
+    def cleanup(self):
+        return None
+
+
+VMREF = [None]
+
+
+def sym_setup_connect(vm, job):
+    import asyncio
+    import base64
+    import zlib
+    from symvm.sv import SBytes, Run, Unsupported
+    env = SymConnectEnv()
+    ENV[0] = env
+    VMREF[0] = vm
+
+    def ident(b):
+        a = vm.norm_atoms(list(b.a)) if isinstance(b, SBytes) else None
+        if a and len(a) == 1 and isinstance(a[0], Run):
+            r = a[0]
+            if r.rid == 'chunk' and r.off == 0:
+                return ('chunk', 0)
+            off, ln = conc(r.off), conc(r.length)
+            if r.rid == 'old' and off is not None and off % 112 == 0 and ln == 112:
+                return ('old', off // 112)
+            if r.rid.startswith('new') and r.off == 0:
+                return ('new', int(r.rid[3:]))
+        raise Unsupported('header model: hash/deserialize of something that is not one whole header: %r' % (b,))
+
+    def conc(x):
+        from symvm import tz
+        if isinstance(x, int):
+            return x
+        x = tz.simplify(x)
+        return x.as_long() if tz.is_int_value(x) else None
+
+    def hash_model(vm_, a, k):
+        space, i = ident(a[0])
+        return ChunkHashTok() if space == 'chunk' else HTok(space, i)
+
+    def deserialize_model(vm_, a, k):
+        space, i = ident(a[1])
+        bits = GOOD_BITS if space == 'old' else vm_.ite(vm_.named_bool('bits_ok%d' % i), GOOD_BITS, GOOD_BITS - 1)
+        return {'prev_block_hash': PTok(space, i, env.start), 'block_height': a[0], 'version': 1, 'timestamp': 0, 'bits': bits,
+                'nonce': 0, 'merkle_root': 'm', 'claim_trie_root': 'c'}
+    vm.models[id(Headers.hash_header)] = hash_model
+    vm.models[id(Headers.deserialize)] = deserialize_model
+    vm.models[id(base64.b64decode)] = lambda vm_, a, k: a[0]
+    vm.models[id(zlib.decompress)] = lambda vm_, a, k: a[0]
+
+
 def sym_setup(vm, job):
     import asyncio
     import builtins
     import os
+    if job.get('family') in ('connect', 'checkpoint'):
+        return sym_setup_connect(vm, job)
     if job.get('family') != 'reopen':
         return
     env = SymEnv()
@@ -341,7 +625,21 @@ class _NativeCtx:
         ENV[0], RepairHeaders.checkpoints, RepairHeaders.genesis_hash = self.saved     # the symbolic run continues
 
 
+class _NativeConnectCtx:
+    def __enter__(self):
+        self.saved = (ENV[0], ConnectHeaders.chunk_size)
+        ENV[0] = NativeConnectEnv()
+
+    def __exit__(self, *a):
+        ENV[0], ConnectHeaders.chunk_size = self.saved
+
+
 def native_setup(nvm, job):
+    if job.get('family') in ('connect', 'checkpoint'):
+        import asyncio
+        ctx = _NativeConnectCtx()
+        nvm.await_ = lambda aw: asyncio.new_event_loop().run_until_complete(aw)
+        return ctx
     if job.get('family') != 'reopen':
         return None
     ctx = _NativeCtx()
@@ -375,11 +673,24 @@ def jobs(tier):
                             args=(n, start, cut), loop_bound=400, max_depth=60, cost=10 * n,
                             bounds=dict(stored_headers=n, checked_above=0 if cut else start, torn_bytes=cut,
                                         links='one symbolic boolean per header')))
+    shapes = [(3, 0, 3, 10 ** 16, None), (3, 0, 4, 2, None), (4, 1, 3, 2, None), (3, 0, 4, 10 ** 16, 2), (5, 2, 4, 3, 1)] \
+        if tier == 'quick' else \
+        [(s, d, m, cs, sp) for s in (3, 5) for d in (0, 1, 2) for m in (3, 5) for cs in (10 ** 16, 2, 3) for sp in (None, 1, 2)]
+    for s, d, m, cs, sp in shapes:
+        out.append(dict(name=f'connect-{s}stored-at{s - d}-{m}new-chunk{cs if cs < 100 else "max"}' + (f'-split{sp}' if sp else ''),
+                        family='connect', fn='connect_batch', args=(s, d, m, cs, sp), loop_bound=400, max_depth=60, cost=50 * m,
+                        bounds=dict(stored_headers=s, connects_at=s - d, batch_headers=m, chunk_size=cs, calls=2 if sp else 1,
+                                    first_invalid='any header or none; reason: link / bits / proof of work'),
+                        must_reach=('ok-stored', 'ok-refused')))
+    out.append(dict(name='checkpoint-chunk', family='checkpoint', fn='checkpoint_chunk', args=(), loop_bound=400, max_depth=60, cost=20,
+                    bounds=dict(chunk='1000 opaque headers', height='1000..1999', checkpoint='present or absent, matching or not'),
+                    must_reach=('ok-stored', 'ok-refused')))
     return out
 
 
 def finding_key(job, verdict, inputs, named):
     import re
+    verdict = re.sub(r'batch header \d+ is stored although header \d+ of the batch', 'a batch header is stored although an earlier or the same header', verdict)
     verdict = re.sub(r'header \d+ whose link is broken is still loaded \(.*\)', 'header with a broken link is still loaded', verdict)
     return f'{job.get("family")}|{verdict}'
 
@@ -406,7 +717,55 @@ def _repair_tip(node):
     return False
 
 
+def _real_height_in_exception(node):
+    """Canary: validate_chunk reports the failing header's own height; connect's slice then keeps the wrong end of the chunk."""
+    import ast
+    for n in ast.walk(node):
+        if isinstance(n, ast.Call) and isinstance(n.func, ast.Attribute) and n.func.attr == 'validate_header':
+            n.args[0] = ast.parse("current_header['block_height']").body[0].value
+            return True
+    return False
+
+
+def _no_bail(node):
+    """Canary: connect keeps going after an invalid chunk."""
+    import ast
+    for n in ast.walk(node):
+        if isinstance(n, ast.If) and isinstance(n.test, ast.Name) and n.test.id == 'bail':
+            n.body = [ast.Pass()]
+            return True
+    return False
+
+
+def _no_pow_check(node):
+    import ast
+    for n in ast.walk(node):
+        if isinstance(n, ast.Compare) and isinstance(n.left, ast.Name) and n.left.id == 'proof_of_work':
+            n.ops[0] = ast.Lt()
+            n.comparators[0] = ast.Constant(0)
+            return True
+    return False
+
+
+def _checkpoint_any(node):
+    import ast
+    for n in ast.walk(node):
+        if isinstance(n, ast.Compare) and isinstance(n.ops[0], ast.Eq) and isinstance(n.comparators[0], ast.Name) \
+                and n.comparators[0].id == 'chunk_hash':
+            n.ops[0] = ast.NotEq()
+            return True
+    return False
+
+
 CANARIES = [
+    dict(name='invalid-header-height-reported', target='lbry.wallet.header:Headers.validate_chunk', mutate=_real_height_in_exception,
+         job=dict(family='connect', fn='connect_batch', args=(3, 0, 4, 10 ** 16, None), loop_bound=400, max_depth=60)),
+    dict(name='connect-continues-after-invalid-chunk', target='lbry.wallet.header:Headers.connect', mutate=_no_bail,
+         job=dict(family='connect', fn='connect_batch', args=(3, 0, 4, 2, None), loop_bound=400, max_depth=60)),
+    dict(name='proof-of-work-not-checked', target='lbry.wallet.header:Headers.validate_header', mutate=_no_pow_check,
+         job=dict(family='connect', fn='connect_batch', args=(3, 0, 3, 10 ** 16, None), loop_bound=400, max_depth=60)),
+    dict(name='checkpoint-mismatch-accepted', target='lbry.wallet.header:Headers.fetch_chunk', mutate=_checkpoint_any,
+         job=dict(family='checkpoint', fn='checkpoint_chunk', args=(), loop_bound=400, max_depth=60)),
     dict(name='compact-sign-bit-test', target='lbry.wallet.util:ArithUint256._calculate_compact', mutate=_const(0x00800000, 0x00400000),
          job=dict(family='compact', fn='compact_of_value', args=(1, 64), loop_bound=300, max_depth=40)),
     dict(name='retarget-max-timespan', target='lbry.wallet.header:Headers.get_next_block_target', mutate=_const(2, 4),
